@@ -25,6 +25,19 @@ RULE = ("every boolean mask of every shape with H*W <= N (see exhaustive_subspac
         "re-used and edited in place); every read must equal the model on the CURRENT contents of that object and show those contents. "
         "Families: one view read -> edit -> re-read all (every view x fresh/held x edit route); copy then edit copy / original; derived objects; "
         "two edits restoring the number of unmasked pixels; all small masks x every cell flipped; random programs. "
+        "INPUT KINDS / SIBLINGS / ARGUMENTS (kinds_inputs and history family H): the mask is given as int / float / float32 / uint8 / int8 / complex / "
+        "Fortran-ordered / non-contiguous view / read-only / ndarray-subclass arrays, arrays of arbitrary truthy values (negative, 1e-300, inf), "
+        "lists of ints, lists of numpy rows, a Mask2D, an instance of a user subclass of Mask2D, and through the classmethods all_false / "
+        "from_pixel_coordinates / circular / from_primary_hdu(hdu_for_output); the util functions get twin arrays of every numeric kind; the kernel "
+        "shape is a tuple / list / ndarray / numpy-integer tuple / Kernel2D.shape_native, held and re-used; pixel scales / origin are a scalar / int tuple / "
+        "list / ndarray, scaled by 2^-40 .. 2^40 (coordinates descaled exactly, C10_grid_views_scale); sibling routes: DeriveIndexes2D / DeriveMask2D / "
+        "DeriveGrid2D constructed directly (keyword and positional), DeriveMask2D.derive_indexes, BorderRelocator.border_grid and sub_border_slim "
+        "(sub_size 1), Convolver(mask, kernel).blurring_mask, Grid2D.blurring_grid_via_kernel_shape_from (on Grid2D.from_mask and on "
+        "derive_grid.unmasked), blurring_grid_from(over_sampling=...); every such case is evaluated TWICE on the same objects and every argument "
+        "object (mask array incl. the base of a view, kernel, pixel scales, origin, over_sampling) is fingerprinted before and after; the Mask2D must "
+        "keep contents, pixel scales and origin.  DIRECTED rare states: border walks with one gap at every distance in every direction (7x9 / 9x7), "
+        "masks with more than 127 / 255 unmasked pixels (one-byte index buffers), blurring masks that fit on every side / are one short on exactly "
+        "one side (top, bottom, left, right separately) with kernels up to 9, annuli through every sibling route. "
         "Non-trivial = the mask has at least one unmasked pixel; distinct = distinct JSON input.")
 EXHAUSTIVE = {
     "quick": "util edge/border/buffed: all masks of all shapes with H*W <= 10 and all 3x4 / 4x3 masks (15 498 masks, "
@@ -41,7 +54,12 @@ TRUSTED = ["correspondence harness harness/c10.py (mask/array printing; grid coo
            "numpy semantics modelled in Model/C10.v Part 1: a[y,x] reads/writes with negative-index wrap, np.full, np.sum of a "
            "boolean slice, fancy indexing a[idx] and mask[ys,xs] = False",
            "histories: the harness's interpreter of history programs (run_hist): it applies each edit to the Mask2D and to the twin ndarray, "
-           "and prints as the mask field of every read what np.array(obj) shows at that moment"]
+           "and prints as the mask field of every read what np.array(obj) shows at that moment",
+           "geometry scaled by 2^e with e < 0: multiplying every pixel scale / origin by a power of two commutes exactly with the binary floating-point "
+           "arithmetic of the coordinate formulas (no underflow at 2^-40), so the descaled coordinates are compared with the integer model "
+           "(for integer factors this is theorem C10_grid_views_scale)",
+           "input kinds: the harness's own conversion of the contents to each array kind (mk_array) and np.ndarray.astype('bool') semantics "
+           "(non-zero = masked)"]
 ASSUMPTIONS = ["native_index_for_slim_index_2d_from and grid_2d_slim_via_mask_from are modelled as append / map over the "
                "row-major scan (their preallocate-and-write form belongs to C01 / C02); the correspondence run exercises them",
                "pixel scales and origins of the grid views are small integers so that doubled coordinates are exact integers",
@@ -69,12 +87,13 @@ def pairs(a):
     a = np.asarray(a)
     if a.size == 0: return []
     v = ints(a); return [[v[i], v[i + 1]] for i in range(0, len(v), 2)]
-def pairs2(a):
-    """doubled coordinates, exact"""
+def pairs2(a, e=0):
+    """doubled coordinates, exact; e: the geometry was scaled by 2**e (exact in binary floating point), undone here"""
     a = np.asarray(a, dtype=float)
     out = []
+    sc = Fraction(2) ** (1 - e)
     for r in a.reshape(-1, 2):
-        fy, fx = Fraction(float(r[0])) * 2, Fraction(float(r[1])) * 2
+        fy, fx = Fraction(float(r[0])) * sc, Fraction(float(r[1])) * sc
         assert fy.denominator == 1 and fx.denominator == 1, r
         out.append([int(fy), int(fx)])
     return out
@@ -128,6 +147,7 @@ def gen_inputs(tier, rng):
     big = tier == "thorough"
     i = 0
     yield from hist_inputs(tier, rng)
+    yield from kinds_inputs(tier, rng)
     # ---- exhaustive, util level (quick: all shapes with H*W <= 10 plus 3x4 / 4x3, the 12-cell shapes that have interior
     #      pixels; thorough: all shapes with H*W <= 12)
     for (h, w) in shapes_upto(12):
@@ -189,6 +209,187 @@ def gen_inputs(tier, rng):
                    "g": rng.choice(GEOMS)}
         yield {"op": rng.choice(["blurutil", "blur", "blurgrid"]), "m": ms, "k": [rng.choice(KS[:3]), rng.choice(KS[:3])], "g": rng.choice(GEOMS)}
 
+# ----------------------------------------------------------------------------- input kinds (arrays, kernels, geometry)
+# array kinds accepted by the util functions (elements are 0/1 or bool) ...
+UTIL_KINDS = ["int", "float", "uint8", "int8", "F", "view", "ro", "float32", "ndsub"]
+# ... and by the Mask2D constructor (anything astype("bool") understands: non-zero = masked)
+CTOR_KINDS = UTIL_KINDS + ["truthy_i", "truthy_f", "list_int", "list_rows", "mask2d", "sub2d", "complex"]
+KERNEL_KINDS = ["list", "ndarray", "npint", "kernel2d", "tuple"]
+# numpy UNSIGNED kernel sides make the footprint range of blurring_mask_2d_from empty on the current /repo (-np.uint8(3) == 253):
+# fixes/C10_unsigned_kernel.diff converts the sides in DeriveMask2D.blurring_from.  Switch on once that patch is committed to /repo
+# (the check must exit 0 on the current tree); the kinds then replace "tuple" in every other public blurring case.
+UNSIGNED_KERNELS = True
+GEOM_KINDS = ["scalar", "ints", "list", "ndarray", "tuple"]
+EXPS = [-40, 40, -20, 0]
+
+class _NdSub(np.ndarray):
+    """a plain ndarray subclass (isinstance(x, np.ndarray) holds, type(x) is np.ndarray does not)"""
+
+def mk_array(M, ak, aa=None):
+    """the contents M (rows of bools) as an object of kind `ak`; returns (object, keep) where `keep` is the array whose
+    bytes must not change (the base array of a view)"""
+    a = np.array(M, dtype=bool)
+    H, W = a.shape
+    if ak in (None, "bool"): return a, a
+    if ak == "int": r = a.astype(int)
+    elif ak == "float": r = a.astype(float)
+    elif ak == "float32": r = a.astype(np.float32)
+    elif ak == "complex": r = a.astype(complex) * 1j
+    elif ak == "uint8": r = a.astype(np.uint8)
+    elif ak == "int8": r = a.astype(np.int8)
+    elif ak == "F": r = np.asfortranarray(a)
+    elif ak == "ro": r = a.copy(); r.flags.writeable = False
+    elif ak == "ndsub": r = a.copy().view(_NdSub)
+    elif ak == "view":
+        # every second row / third column of a bigger array whose other cells hold the opposite values
+        big = np.repeat(np.repeat(~a, 2, axis=0), 3, axis=1)
+        big[1::2, 2::3] = a
+        return big[1::2, 2::3], big
+    elif ak == "truthy_i": r = np.where(a, ((np.arange(H * W).reshape(H, W) % 5) - 2) * 2 + 1, 0)          # -3 .. 5, odd
+    elif ak == "truthy_f": r = np.where(a, np.array([0.5, -1e-300, 1e300, np.inf, -2.0])[np.arange(H * W).reshape(H, W) % 5], 0.0)
+    elif ak == "list_int": return [[int(v) for v in row] for row in a], None
+    elif ak == "list_rows": return [np.array(row) for row in a], None
+    elif ak == "mask2d": return aa.Mask2D(mask=a, pixel_scales=(7.0, 9.0), origin=(5.0, -5.0)), None
+    elif ak == "sub2d": return _sub2d(aa)(mask=a, pixel_scales=(7.0, 9.0), origin=(5.0, -5.0)), None
+    else: raise ValueError(ak)
+    return r, r
+
+_SUB2D = []
+def _sub2d(aa):
+    """a user subclass of Mask2D (isinstance holds, type(x) is Mask2D does not)"""
+    if not _SUB2D:
+        class MyMask2D(aa.Mask2D): pass
+        _SUB2D.append(MyMask2D)
+    return _SUB2D[0]
+
+def mk_kernel(aa, k, kk):
+    kh, kw = k
+    if kk == "list": return [kh, kw]
+    if kk == "ndarray": return np.array([kh, kw])
+    if kk == "npint": return (np.int64(kh), np.int32(kw))
+    if kk == "npuint8" and 0 < kh < 256 and 0 < kw < 256: return (np.uint8(kh), np.uint8(kw))
+    if kk == "npuint64" and kh > 0 and kw > 0: return np.array([kh, kw], dtype=np.uint64)
+    if kk == "kernel2d" and kh > 0 and kw > 0: return aa.Kernel2D.ones(shape_native=(kh, kw), pixel_scales=1.0).shape_native
+    return (kh, kw)
+
+def mk_geom(g, gk, e=0):
+    """(pixel_scales argument, origin argument, expected pixel_scales, expected origin) for geometry g = [sy, sx, oy, ox]
+    scaled by 2**e"""
+    f = 2.0 ** e
+    sy, sx, oy, ox = [float(v) * f for v in g]
+    if gk == "scalar" and sy == sx: return sy, (oy, ox), (sy, sx), (oy, ox)
+    if gk == "ints" and e >= 0: return (int(sy), int(sx)), (int(oy), int(ox)), (sy, sx), (oy, ox)
+    if gk == "list": return [sy, sx], [oy, ox], (sy, sx), (oy, ox)
+    if gk == "ndarray": return np.array([sy, sx]), np.array([oy, ox]), (sy, sx), (oy, ox)
+    return (sy, sx), (oy, ox), (sy, sx), (oy, ox)
+
+def fp(x):
+    """a fingerprint of an argument object (type, dtype and contents)"""
+    if isinstance(x, np.ndarray): return (type(x).__name__, str(x.dtype), x.shape, x.tobytes(), x.flags.writeable)
+    if isinstance(x, (list, tuple)): return (type(x).__name__, tuple(fp(v) for v in x))
+    if hasattr(x, "__dict__") and not callable(x): return (type(x).__name__, tuple(sorted((k, fp(v)) for k, v in vars(x).items())))
+    return (type(x).__name__, repr(x))
+
+def directed_masks():
+    """rare states built on purpose (random masks reach them rarely, the small exhaustive shapes never):
+    (1) border walks: one unmasked pixel with its unmasked neighbours in the middle of a 7x9 / 9x7 array; in each of the
+        four axis directions the run towards the boundary is masked except for one unmasked gap at a chosen distance;
+    (2) more than 127 / 255 unmasked pixels (slim indices that do not fit a one-byte buffer);"""
+    out = []
+    for (H, W) in ((7, 9), (9, 7)):
+        cy, cx = H // 2, W // 2
+        dirs = [(-1, 0), (1, 0), (0, -1), (0, 1)]
+        for di, (dy, dx) in enumerate(dirs):
+            reach = cy if dy else cx
+            for gap in range(0, reach + 1):               # gap = 0: no gap in that direction
+                for others in (0, 1, 2):                  # the other three directions: blocked near / blocked far / open
+                    g = [[1] * W for _ in range(H)]
+                    g[cy][cx] = 0
+                    for dj, (ey, ex) in enumerate(dirs):
+                        r = cy if ey else cx
+                        if dj == di: holes = [gap] if gap else []
+                        else: holes = [[1], [r], []][others]
+                        for d in holes: g[cy + ey * d][cx + ex * d] = 0
+                    out.append(["".join(map(str, r)) for r in g])
+    for (H, W, style) in ((12, 12, 0), (17, 16, 0), (17, 17, 1), (18, 24, 2)):
+        g = [[0] * W for _ in range(H)]
+        if style == 1:
+            for y in range(H): g[y][0] = g[y][W - 1] = 1
+            for x in range(W): g[0][x] = g[H - 1][x] = 1
+            g[H // 2][W // 2] = 1
+        if style == 2:
+            for y in range(3, H - 3):
+                for x in range(5, W - 5): g[y][x] = 1
+            g[H // 2][W // 2] = 0
+        out.append(["".join(map(str, r)) for r in g])
+    return out
+
+def asym_pad(ms, t, b, l, r):
+    w = len(ms[0]) + l + r
+    return ["1" * w] * t + ["1" * l + row + "1" * r for row in ms] + ["1" * w] * b
+
+def kinds_inputs(tier, rng):
+    """input kinds, sibling entry points, argument fingerprints, directed rare states (single operations; each is
+    evaluated TWICE on the same objects)"""
+    big = tier == "thorough"
+    n = 0
+    dm = directed_masks()
+    for ms in dm:
+        n += 1
+        yield {"op": "util", "m": ms, "buffer": 1 + n % 2, "ak": UTIL_KINDS[n % len(UTIL_KINDS)] if n % 2 else "bool"}
+        if n % 3 == 0 or len(ms) > 9 or big:
+            yield {"op": "views", "m": ms, "g": GEOMS_X[n % 6], "alt": n % 3, "gk": GEOM_KINDS[n % 5], "e": EXPS[n % 4]}
+    # ---- annuli / holes (edge pixels that are not border pixels) through every sibling route of the views
+    for j in range(24 if big else 9):
+        n += 1
+        h, w = rng.randint(5, 9), rng.randint(5, 9)
+        g = [[1] * w for _ in range(h)]
+        y0, x0 = rng.randint(0, 1), rng.randint(0, 1); y1, x1 = h - 1 - rng.randint(0, 1), w - 1 - rng.randint(0, 1)
+        for y in range(y0, y1 + 1):
+            for x in range(x0, x1 + 1): g[y][x] = 0
+        for y in range(y0 + 2, y1 - 1):
+            for x in range(x0 + 2, x1 - 1): g[y][x] = 1
+        if rng.random() < 0.5: g[rng.randint(y0, y1)][rng.randint(x0, x1)] = 1
+        yield {"op": "views", "m": ["".join(map(str, r)) for r in g], "g": GEOMS_X[n % 6], "alt": 1 + n % 3, "gk": GEOM_KINDS[n % 5], "e": EXPS[n % 4],
+               "ak": CTOR_KINDS[n % len(CTOR_KINDS)]}
+    # ---- blurring: every side of the array separately exact / one short, kernels up to 9, all kernel kinds and routes
+    for kh, kw in ((3, 3), (1, 5), (5, 3), (3, 7), (7, 1), (9, 3), (5, 9)):
+        for side in range(5):                      # 0: fits on every side; 1..4: one short at top / bottom / left / right
+            for rep in range(2 if big else 1):
+                n += 1
+                inner = rand_mask(rng, rng.randint(1, 3), rng.randint(1, 3))
+                if "0" not in "".join(inner): inner = ["0"]
+                # make sure an unmasked pixel sits on the critical side of the inner block
+                if side == 1: inner[0] = "0" + inner[0][1:]
+                if side == 2: inner[-1] = "0" + inner[-1][1:]
+                if side == 3: inner = ["0" + r[1:] for r in inner[:1]] + inner[1:]
+                if side == 4: inner = [r[:-1] + "0" for r in inner[:1]] + inner[1:]
+                t = b = kh // 2; l = r = kw // 2
+                if side == 1: t -= 1
+                if side == 2: b -= 1
+                if side == 3: l -= 1
+                if side == 4: r -= 1
+                if min(t, b, l, r) < 0: continue
+                yield {"op": ("blur", "blurgrid", "blurutil")[n % 3], "m": asym_pad(inner, t, b, l, r), "k": [kh, kw], "g": GEOMS_X[n % 6],
+                       "ak": CTOR_KINDS[n % len(CTOR_KINDS)], "kk": KERNEL_KINDS[n % 5], "gk": GEOM_KINDS[(n // 5) % 5], "e": EXPS[n % 4],
+                       "alt": (n // 3) % 4}
+    # ---- every array kind x every operation, masks of every small shape (size-1 dimensions, single pixels, empty selections)
+    specials = [["0"], ["1"], ["00"], ["0", "0"], ["01"], ["1", "0"], ["111", "101", "111"], ["000", "000", "000"], ["111", "111"],
+                ["11111", "10001", "10101", "10001", "11111"], ["1111111", "1000001", "1011101", "1010101", "1011101", "1000001", "1111111"]]
+    for ki, ak in enumerate(CTOR_KINDS):
+        for oi, op in enumerate(("util", "checkedge", "views", "blur", "blurgrid", "blurutil")):
+            if op in ("util", "checkedge", "blurutil") and ak not in UTIL_KINDS: continue
+            for rep in range(4 if big else 2):
+                n += 1
+                ms = specials[n % len(specials)] if rep == 0 else pad(rand_mask(rng, rng.randint(1, 5), rng.randint(1, 5)), rng.randint(0, 2), rng.randint(0, 2))
+                yield {"op": op, "m": ms, "k": [rng.choice(KS[:3]), rng.choice(KS[:3])], "buffer": n % 3, "g": GEOMS_X[n % 6], "ak": ak,
+                       "kk": KERNEL_KINDS[n % 5], "gk": GEOM_KINDS[(n // 2) % 5], "e": EXPS[(n // 3) % 4], "alt": n % 4}
+    # ---- even kernels through every kernel kind and sibling route (rejected by the public entry points)
+    for ki, kk in enumerate(KERNEL_KINDS):
+        for k in ([2, 3], [3, 4], [4, 2]):
+            n += 1
+            yield {"op": ("blur", "blurgrid")[n % 2], "m": pad(["0"], 3, 3), "k": k, "g": GEOMS[n % 4], "kk": kk, "alt": n % 4, "ak": "bool"}
+
 # ----------------------------------------------------------------------------- history programs
 NEW_ROUTES = ["ctor", "ctor", "ctor_list", "ctor_int", "ctor_invert", "with_new_array"]
 COPY_ROUTES = ["copy", "copy.copy", "deepcopy", "ctor", "ctor_array"]
@@ -218,7 +419,9 @@ def _read(rng, oref, op="views", held=None):
     if op == "util": p = {"buffer": rng.choice([0, 1, 1, 2])}
     return ["read", oref, op, held, order if op == "views" else None, p]
 
-def _hist(g, steps): return {"op": "hist", "g": g, "steps": steps}
+def _hist(g, steps, **kw): return dict({"op": "hist", "g": g, "steps": steps}, **kw)
+HIST_NEW_X = ["kind:" + k for k in CTOR_KINDS] + ["all_false", "from_pixel_coordinates", "circular", "hdu"]
+RAW_KINDS = [k for k in UTIL_KINDS if k != "ro"]
 
 def _reread(rng, o, held=None, k=None):
     """everything is read again from object o: the eleven views, the blurring mask and grid (kernel k, default the (3,3)
@@ -296,28 +499,51 @@ def hist_inputs(tier, rng):
             if n % 5: continue
             yield _hist(GEOMS[n % 4], [["new", "ctor", ms], ["touch", 0, [SEL_NAMES[n % 14], SEL_NAMES[(n // 14) % 14]], n % 2 == 0],
                                        ["edit", EDIT_ROUTES[n % 8], 0, [[n % 3, (n // 3) % 3]], "flip", 0], _read(rng, 0, "views", n % 2 == 0)])
+    # ---- H: input kinds and sibling routes inside histories: an object built from every kind of constructor argument / classmethod
+    #      (the util functions get a twin array of every kind), read through a sibling route with a HELD kernel-shape object of every
+    #      kind, edited, read again through another route; a copy / derived object follows the same path
+    n = 0
+    for rep in range(3 if big else 1):
+        for ri, route in enumerate(HIST_NEW_X):
+            n += 1
+            k = HKS[n % 5]; kk = KERNEL_KINDS[n % 5]
+            def rd(o, op, held=False): return ["read", o, op, held, None, {"k": k, "kk": kk, "buffer": 1}]
+            dv = DERIVES[n % 8]
+            steps = [["new", route + (":sub" if route.startswith("kind:") and n % 2 else ""),
+                      pad(rand_mask(rng, rng.randint(1, 4), rng.randint(1, 4)), k[0] // 2 + n % 2, k[1] // 2 + (n // 2) % 2)],
+                     _read(rng, 0, "views", 1 + n % 4), rd(0, "blur", 1 + (n // 2) % 4), rd(0, "blurgrid", 1 + (n // 3) % 4), rd(0, "blurutil"), rd(0, "util"),
+                     _edit(rng, 0, None, "flip"), _read(rng, 0, "views", 1 + (n + 1) % 4), rd(0, "blurgrid", 1 + n % 4), rd(0, "blur", 1 + (n // 3) % 4),
+                     rd(0, "blurutil"), rd(0, "util"),
+                     ["copy", COPY_ROUTES[n % 5], 0], _read(rng, 1, "views", 1 + (n // 2) % 4), _edit(rng, 1, None, "flip"),
+                     _read(rng, 1, "views", 1 + (n // 3) % 4), rd(1, "blurgrid", 1 + n % 4), _read(rng, 0, "views", n % 5), rd(0, "blur", n % 5),
+                     ["derive", dv[0], dv[1], 0, k[0], k[1]], _read(rng, 2, "views", 1 + n % 4), _edit(rng, 2, None, "flip"),
+                     _read(rng, 2, "views", 1 + (n // 2) % 4), rd(2, "blurgrid", 1 + (n // 3) % 4), _edit(rng, 0, None, "flip"),
+                     _read(rng, 0, "views", (n // 2) % 5), _read(rng, 1, "views", False), _read(rng, 2, "views", False)]
+            yield _hist(GEOMS_X[n % 6], steps, e=EXPS[n % 4] if route != "hdu" else 0, gk=GEOM_KINDS[(n // 2) % 5], rk=RAW_KINDS[n % len(RAW_KINDS)])
     # ---- F: random programs (one preferred kernel per history, so that the same call is repeated across edits)
     for j in range(1500 if big else 150):
         steps = [["new", rng.choice(NEW_ROUTES[:5]), _rows(rng, big)]]
+        xk = {"e": rng.choice(EXPS), "gk": rng.choice(GEOM_KINDS), "rk": rng.choice(RAW_KINDS)} if j % 3 == 0 else {}
         hk = rng.choice(HKS)
         def kk(): return hk if rng.random() < 0.75 else rng.choice(HKS)
         for _ in range(rng.randint(4, 14)):
             r = rng.random(); o = rng.randrange(8)
             if r < 0.30: steps.append(_edit(rng, o))
-            elif r < 0.48: steps.append(_read(rng, o, "views"))
+            elif r < 0.48: steps.append(_read(rng, o, "views", rng.randrange(5) if xk and rng.random() < 0.5 else None))
             elif r < 0.62:
                 rd = _read(rng, o, rng.choice(["util", "checkedge", "blurutil", "blur", "blur", "blurgrid", "blurgrid", "contents"]))
                 if "k" in rd[5]: rd[5] = {"k": kk()}
+                if "k" in rd[5] and xk: rd[5]["kk"] = rng.choice(KERNEL_KINDS); rd[3] = rng.randrange(5)
                 steps.append(rd)
             elif r < 0.76: steps.append(["touch", o, rng.sample(SEL_NAMES, rng.randint(1, 4)), rng.random() < 0.4])
             elif r < 0.84: steps.append(["copy", rng.choice(COPY_ROUTES), o])
             elif r < 0.93:
                 d = rng.choice(DERIVES); k = kk()
                 steps.append(["derive", d[0], d[1], o, k[0], k[1]])
-            elif r < 0.97: steps.append(["new", rng.choice(NEW_ROUTES), _rows(rng, big)])
+            elif r < 0.97: steps.append(["new", rng.choice(HIST_NEW_X[:-1]) + rng.choice(["", ":sub"]) if xk and rng.random() < 0.6 else rng.choice(NEW_ROUTES), _rows(rng, big)])
             else: steps.append(["resized", o, rng.randint(-1, 2), rng.randint(-1, 2)])
         steps += _reread(rng, rng.randrange(8), None, hk)
-        yield _hist(rng.choice(GEOMS_X), steps)
+        yield _hist(rng.choice(GEOMS_X), steps, **xk)
 
 # ----------------------------------------------------------------------------- implementation calls
 def _classify(M):
@@ -331,7 +557,7 @@ VIEW_FIELDS = ["edge_slim", "edge_native", "border_slim", "border_native", "mask
 # selector numbers of HTouch: the eleven fields of a full read, three more entry points, the util functions (on the twin array)
 SEL_NAMES = VIEW_FIELDS + ["blur33", "blurgrid33", "native_for_slim", "u_total", "u_edge", "u_border", "u_buffed", "u_blur33"]
 
-def _view(aa, m, name, handles=None, raw=None):
+def _view(aa, m, name, handles=None, raw=None, e=0):
     """one view of the Mask2D `m`, through fresh derive_* objects or through the held `handles` = (di, dm, dg);
     the u_* selectors call the util functions on the ndarray `raw`"""
     di, dm, dg = handles if handles is not None else (None, None, None)
@@ -359,13 +585,29 @@ def _view(aa, m, name, handles=None, raw=None):
         return r if r[0] == "raise" else ("ok", mask_out(r[1]))
     if name == "blurgrid33":
         r = call_res(lambda: aa.Grid2D.blurring_grid_from(mask=m, kernel_shape_native=(3, 3)))
-        return r if r[0] == "raise" else ("ok", pairs2(r[1]))
+        return r if r[0] == "raise" else ("ok", pairs2(r[1], e))
     dg = dg if dg is not None else m.derive_grid
-    if name == "grid_edge": return pairs2(dg.edge)
+    if name == "grid_edge": return pairs2(dg.edge, e)
     if name == "grid_edge_mask": return mask_out(dg.edge.mask)
-    if name == "grid_border": return pairs2(dg.border)
+    if name == "grid_border": return pairs2(dg.border, e)
     if name == "grid_border_mask": return mask_out(dg.border.mask)
     raise ValueError(name)
+
+def alt_handles(aa, m, alt):
+    """(derive_indexes, derive_mask, derive_grid) objects obtained through sibling routes"""
+    if alt == 1: return (aa.DeriveIndexes2D(mask=m), aa.DeriveMask2D(mask=m), aa.DeriveGrid2D(mask=m))
+    if alt == 2: return (m.derive_mask.derive_indexes, aa.DeriveMask2D(mask=m), m.derive_grid)
+    if alt == 3: return (aa.DeriveIndexes2D(m), m.derive_mask, aa.DeriveGrid2D(m))
+    return None
+
+def _alt_views(aa, m, out, e):
+    """siblings that must show the same border: BorderRelocator.border_grid (any mask) and, with one sub-pixel per pixel,
+    BorderRelocator.sub_border_slim (needs an unmasked pixel)"""
+    from autoarray.inversion.pixelization.border_relocator import BorderRelocator
+    if not np.array(m).all():
+        br = BorderRelocator(mask=m, sub_size=1)
+        out["grid_border"] = pairs2(br.border_grid, e)
+        out["border_slim"] = ints(br.sub_border_slim)
 
 def _views_term(M, g, o):
     return (f"KViews {cmask(M)} {ctup([cz(v) for v in g])} (Build_views {czl(o['edge_slim'])} {cpxl(o['edge_native'])} "
@@ -373,25 +615,46 @@ def _views_term(M, g, o):
             f"{cmask(o['mask_buffed'])} {cpxl(o['grid_edge'])} {cmask(o['grid_edge_mask'])} {cpxl(o['grid_border'])} "
             f"{cmask(o['grid_border_mask'])})")
 
-def _observe(aa, op, p, M, get_m, get_raw, g, handles=None, order=None):
+def _observe(aa, op, p, M, get_m, get_raw, g, handles=None, order=None, e=0, kern=None, alt=0):
     """Observe operation `op` once.  M: the contents to print in the case (rows of bools); get_m(): the Mask2D;
-    get_raw(): the ndarray handed to the util functions.  Returns (coq term of type case1 | None, out, py_ok, detail)."""
+    get_raw(): the ndarray handed to the util functions; e: the geometry is g * 2**e; kern: the kernel-shape object to pass
+    (default: a tuple of ints); alt: sibling route (see RULE).  Returns (coq term of type case1 | None, out, py_ok, detail)."""
     from autoarray.mask import mask_2d_util as u
-    if op == "blurutil":
+    if op in ("blurutil", "blur", "blurgrid"):
         kh, kw = p["k"]
-        r = call_res(u.blurring_mask_2d_from, mask_2d=get_raw(), kernel_shape_native=(kh, kw))
+        kern = (kh, kw) if kern is None else kern
+        oddpos = kh > 0 and kw > 0 and kh % 2 == 1 and kw % 2 == 1
+    if op == "blurutil":
+        r = call_res(u.blurring_mask_2d_from, mask_2d=get_raw(), kernel_shape_native=kern)
         out = r if r[0] == "raise" else ("ok", mask_out(r[1]))
         return f"KBlurUtil {cmask(M)} {cz(kh)} {cz(kw)} {cres(out, cmask)}", out, None, None
     if op == "blur":
-        kh, kw = p["k"]
-        r = call_res(lambda: get_m().derive_mask.blurring_from(kernel_shape_native=(kh, kw)))
+        if alt == 1: f = lambda: aa.DeriveMask2D(mask=get_m()).blurring_from(kernel_shape_native=kern)
+        elif alt == 2: f = lambda: get_m().derive_mask.blurring_from(kern)
+        elif alt == 3 and oddpos:
+            # the convolver computes its own blurring mask for the kernel's shape (same util function, no Mask2D wrapper)
+            f = lambda: aa.Convolver(mask=get_m(), kernel=aa.Kernel2D.ones(shape_native=(kh, kw), pixel_scales=1.0)).blurring_mask
+        else: f = lambda: get_m().derive_mask.blurring_from(kernel_shape_native=kern)
+        r = call_res(f)
         out = r if r[0] == "raise" else ("ok", mask_out(r[1]))
         return f"KBlur {cmask(M)} {cz(kh)} {cz(kw)} {cres(out, cmask)}", out, None, None
     if op == "blurgrid":
-        kh, kw = p["k"]
-        r = call_res(lambda: aa.Grid2D.blurring_grid_from(mask=get_m(), kernel_shape_native=(kh, kw)))
-        out = r if r[0] == "raise" else ("ok", pairs2(r[1]))
-        return f"KBlurGrid {cmask(M)} {cz(kh)} {cz(kw)} {ctup([cz(v) for v in g])} {cres(out, cpxl)}", out, None, None
+        py_ok = detail = None
+        if alt == 1: f = lambda: aa.Grid2D.from_mask(mask=get_m()).blurring_grid_via_kernel_shape_from(kernel_shape_native=kern)
+        elif alt == 2:
+            os_ = aa.OverSamplingUniform(sub_size=2); os0 = fp(os_)
+            f = lambda: aa.Grid2D.blurring_grid_from(mask=get_m(), kernel_shape_native=kern, over_sampling=os_)
+        elif alt == 3: f = lambda: get_m().derive_grid.unmasked.blurring_grid_via_kernel_shape_from(kern)
+        else: f = lambda: aa.Grid2D.blurring_grid_from(mask=get_m(), kernel_shape_native=kern)
+        r = call_res(f)
+        if alt == 2 and fp(os_) != os0: py_ok = False; detail = "blurring_grid_from modified the over_sampling object it was given"
+        out = r if r[0] == "raise" else ("ok", pairs2(r[1], e))
+        if r[0] == "ok" and py_ok is None:
+            # the grid carries the blurring mask with the source's geometry
+            bm = r[1].mask
+            if tuple(bm.pixel_scales) != tuple(get_m().pixel_scales) or tuple(bm.origin) != tuple(get_m().origin):
+                py_ok = False; detail = "the blurring grid's mask does not carry the pixel scales / origin of the source mask"
+        return f"KBlurGrid {cmask(M)} {cz(kh)} {cz(kw)} {ctup([cz(v) for v in g])} {cres(out, cpxl)}", out, py_ok, detail
     if op == "util":
         b = int(p["buffer"])
         def f():
@@ -413,7 +676,9 @@ def _observe(aa, op, p, M, get_m, get_raw, g, handles=None, order=None):
     if op == "views":
         def f():
             m = get_m()
-            return {name: _view(aa, m, name, handles) for name in (order or VIEW_FIELDS)}
+            o = {name: _view(aa, m, name, handles if handles is not None else alt_handles(aa, m, alt), None, e) for name in (order or VIEW_FIELDS)}
+            if alt == 2: _alt_views(aa, m, o, e)
+            return o
         r = call_res(f)
         if r[0] == "raise": return None, r, False, "a derive_* view raised " + r[1]
         return _views_term(M, g, r[1]), r[1], None, None
@@ -426,16 +691,38 @@ def run_case(inp):
     op = inp["op"]
     if op == "hist": return run_hist(aa, inp)
     M = rows_of(inp["m"])
-    arr = np.array(M, dtype=bool)
     un, ring = _classify(M)
     g = inp.get("g", [1, 1, 0, 0])
-    sy, sx, oy, ox = g
-    term, out, py_ok, detail = _observe(
-        aa, op, inp, M,
-        lambda: aa.Mask2D(mask=arr, pixel_scales=(float(sy), float(sx)), origin=(float(oy), float(ox))),
-        lambda: arr, g)
-    if py_ok is None and not np.array_equal(arr, np.array(M, dtype=bool)):
-        py_ok = False; detail = "the caller's mask array was modified by the call"
+    kinds = any(k in inp for k in ("ak", "kk", "gk", "e", "alt"))
+    ak, kk, gk, e, alt = inp.get("ak"), inp.get("kk", "tuple"), inp.get("gk", "tuple"), inp.get("e", 0), inp.get("alt", 0)
+    psa, orga, ps_exp, org_exp = mk_geom(g, gk, e)
+    # the util functions get an ndarray of kind ak (when the kind is one they accept), the constructor any kind
+    arr, keep = mk_array(M, ak if (ak in UTIL_KINDS or op not in ("util", "checkedge", "blurutil")) else None, aa)
+    raw = arr if isinstance(arr, np.ndarray) else np.array(M, dtype=bool)
+    if UNSIGNED_KERNELS and kk == "tuple" and op in ("blur", "blurgrid") and alt != 3 and "kk" in inp:
+        kk = ("npuint8", "npuint64")[(len(M) + len(M[0])) % 2]
+    kern = mk_kernel(aa, inp["k"], kk) if "k" in inp else None
+    args = [x for x in (keep, kern, psa, orga) if x is not None]
+    fp0 = [fp(x) for x in args]
+    cell = []
+    def get_m():
+        if not cell:
+            cls = _sub2d(aa) if ak == "ndsub" and alt % 2 else aa.Mask2D
+            cell.append(cls(mask=arr, pixel_scales=psa, origin=orga))
+        return cell[0]
+    term, out, py_ok, detail = _observe(aa, op, inp, M, get_m, lambda: raw, g, None, None, e, kern, alt)
+    if py_ok is None and [fp(x) for x in args] != fp0:
+        py_ok = False; detail = "an argument of the call (mask array, kernel shape, pixel scales or origin object) was modified by the call"
+    if py_ok is None and kinds:
+        # the same call once more on the SAME objects (Mask2D, array, kernel): same answer, arguments and object untouched
+        term2, out2, py_ok, detail = _observe(aa, op, inp, M, get_m, lambda: raw, g, None, None, e, kern, alt)
+        if py_ok is None and (term2 != term or [fp(x) for x in args] != fp0):
+            py_ok = False; detail = "the second identical call on the same objects gave a different result or modified an argument"
+        if py_ok is None and cell:
+            m = cell[0]
+            if mask_out(np.array(m)) != M: py_ok = False; detail = "the Mask2D does not hold the contents it was given"
+            elif tuple(float(v) for v in m.pixel_scales) != ps_exp or tuple(float(v) for v in m.origin) != org_exp:
+                py_ok = False; detail = "the pixel scales / origin of the Mask2D changed"
     kind = op
     if op in ("blurutil", "blur", "blurgrid"):
         kh, kw = inp["k"]
@@ -445,6 +732,10 @@ def run_case(inp):
     elif op == "views" and term is not None and out["edge_slim"] != out["border_slim"]: kind += ":inner-edge"
     if ring: kind += ":ring"
     _t(kind); _t(f"unmasked={min(len(un), 10)}{'+' if len(un) >= 10 else ''}")
+    if kinds:
+        _t(f"kinds:array={ak}"); _t(f"kinds:alt={alt}:{op}")
+        if kern is not None: _t(f"kinds:kernel={kk}")
+        if e: _t(f"kinds:scale=2^{e}")
     return {"coq": None if term is None else "(K1 (" + term + "))", "out": out, "py_ok": py_ok, "nontrivial": len(un) > 0,
             "kind": op, "detail": detail}
 
@@ -469,22 +760,33 @@ def _cell(ob_shape, iy, ix, neg):
 
 def run_hist(aa, inp):
     import copy as _copy
-    g = inp["g"]; sy, sx, oy, ox = g
-    ps, org = (float(sy), float(sx)), (float(oy), float(ox))
+    g = inp["g"]; e = inp.get("e", 0); gk = inp.get("gk", "tuple"); rk = inp.get("rk")
+    ps, org, ps_exp, org_exp = mk_geom(g, gk, e)          # the SAME pixel-scales / origin objects go into every constructor call
+    geo0 = [fp(ps), fp(org)]
     objs = []; steps = []; log = []; problems = []
     nreads = 0; nedits = 0
+    kerns = {}                                            # kernel-shape objects are held and re-used across the reads of a history
+    def kern_of(p):
+        key = (p["k"][0], p["k"][1], p.get("kk", "tuple"))
+        if UNSIGNED_KERNELS and key[2] == "tuple" and "kk" in p and p.get("_op") in ("blur", "blurgrid"): key = key[:2] + ("npuint8",)
+        if key not in kerns: kerns[key] = mk_kernel(aa, p["k"], key[2]); kerns[key] = (kerns[key], fp(kerns[key]))
+        return kerns[key][0]
 
     def cur(ob): return mask_out(np.array(ob.m))
     def handles(ob, held):
+        """False: fresh derive_* objects through the properties; True: the objects obtained at the first held read of this object;
+        2, 3, 4: sibling routes 1, 2, 3 (alt_handles), fresh"""
         if not held: return None
+        if held is not True and int(held) > 1: return alt_handles(aa, ob.m, int(held) - 1)
         if ob.h is None: ob.h = (ob.m.derive_indexes, ob.m.derive_mask, ob.m.derive_grid)
         return ob.h
+    def alt_of(held): return int(held) - 1 if (held is not True and held and int(held) > 1) else 0
     def check_arg(ob):
-        if ob.arg is not None and not np.array_equal(np.asarray(ob.arg), ob.arg0):
+        if ob.arg is not None and fp(ob.arg) != ob.arg0:
             problems.append("the array given to the Mask2D constructor was modified")
         ob.arg = None
     def add(m, contents_rows):
-        ob = _Obj(m, np.array(contents_rows, dtype=bool)); objs.append(ob); return ob
+        ob = _Obj(m, mk_array(mask_out(contents_rows), rk)[0] if rk else np.array(contents_rows, dtype=bool)); objs.append(ob); return ob
 
     for st in inp["steps"]:
         kind = st[0]
@@ -496,15 +798,35 @@ def run_hist(aa, inp):
             elif route == "ctor_int": arg = a.astype(int); m = aa.Mask2D(mask=arg, pixel_scales=ps, origin=org)
             elif route == "ctor_invert": arg = ~a; m = aa.Mask2D(mask=arg, pixel_scales=ps, origin=org, invert=True)
             elif route == "with_new_array" and objs: arg = None; m = objs[0].m.with_new_array(a.copy())
+            elif route.startswith("kind:"):
+                obj_, arg = mk_array(M, route.split(":")[1], aa)
+                # "kind:<k>:sub" builds an instance of a user SUBCLASS of Mask2D
+                m = (_sub2d(aa) if route.endswith(":sub") else aa.Mask2D)(mask=obj_, pixel_scales=ps, origin=org)
+            elif route.split(":")[0] in ("all_false", "from_pixel_coordinates", "circular", "hdu"):
+                route = route.split(":")[0]
+                # constructor classmethods: the contents are whatever the classmethod produced (other properties judge that);
+                # what is checked here is that every view of the new object describes those contents, now and after edits
+                arg = None; H, W = a.shape
+                if route == "all_false": m = aa.Mask2D.all_false(shape_native=(H, W), pixel_scales=ps, origin=org)
+                elif route == "from_pixel_coordinates":
+                    m = aa.Mask2D.from_pixel_coordinates(shape_native=(H, W), pixel_coordinates=[[y, x] for y in range(H) for x in range(W) if not a[y, x]],
+                                                         pixel_scales=ps, origin=org, buffer=0)
+                elif route == "circular":
+                    m = aa.Mask2D.circular(shape_native=(H, W), radius=1.5 * ps_exp[0], pixel_scales=ps, origin=org, centre=org_exp)
+                else:
+                    # (the header is written from a mask with plain float-tuple scales: an isotropic int / numpy-float scale is written as one
+                    #  PIXSCALE number that convert_pixel_scales_2d -- type(x) is float -- does not expand on the way back; not C10's business)
+                    m = aa.Mask2D.from_primary_hdu(primary_hdu=aa.Mask2D(mask=a, pixel_scales=ps_exp, origin=org_exp).hdu_for_output, origin=org)
+                M = mask_out(np.array(m))
             else: arg = a.copy(); m = aa.Mask2D(mask=arg, pixel_scales=ps, origin=org)
             ob = add(m, M)
-            if arg is not None and not isinstance(arg, list): ob.arg = arg; ob.arg0 = np.array(arg, copy=True)
+            if arg is not None and not isinstance(arg, list): ob.arg = arg; ob.arg0 = fp(arg)
             steps.append(f"HNew {cmask(M)}"); log.append(["new", route])
         elif kind == "resized":
             _, oref, dh, dw = st
             o = oref % len(objs); src = objs[o]; H, W = src.raw.shape
             m = src.m.resized_from(new_shape=(max(1, H + dh), max(1, W + dw)), pad_value=1)
-            M = cur_rows = mask_out(np.array(m)); add(m, M)
+            M = mask_out(np.array(m)); add(m, M)
             steps.append(f"HNew {cmask(M)}"); log.append(["resized", o])
         elif kind == "copy":
             _, route, oref = st
@@ -561,17 +883,19 @@ def run_hist(aa, inp):
             _, oref, names, held = st
             o = oref % len(objs); ob = objs[o]
             for name in names:
-                r = call_res(lambda: _view(aa, ob.m, name, handles(ob, held), ob.raw))
+                r = call_res(lambda: _view(aa, ob.m, name, handles(ob, held), ob.raw, e))
                 if r[0] == "raise": problems.append(f"reading {name} raised {r[1]}")
                 else: ob.seen[name] = r[1]
             if mask_out(ob.raw) != cur(ob): problems.append("a partial read changed the object or the array given to a util function")
             steps.append(f"HTouch {o}%nat {czl([SEL_NAMES.index(n) for n in names])}"); log.append(["touch", o, names, held])
         elif kind == "read":
             _, oref, op, held, order, p = st
+            p = dict(p, _op=op)
             o = oref % len(objs); ob = objs[o]
             M = cur(ob) if op in ("views", "blur", "blurgrid", "contents") else mask_out(ob.raw)
             term, out, py_ok, detail = _observe(aa, op, p, M, lambda: ob.m, lambda: ob.raw, g, handles(ob, held),
-                                                [VIEW_FIELDS[i] for i in order] if order else None)
+                                                [VIEW_FIELDS[i] for i in order] if order else None, e, kern_of(p) if "k" in p else None,
+                                                alt_of(held))
             if py_ok is False: problems.append(detail); continue
             if op in ("util", "checkedge", "blurutil"):
                 M2 = mask_out(ob.raw)                       # the util functions must not touch their argument
@@ -585,8 +909,12 @@ def run_hist(aa, inp):
         else:
             raise ValueError(kind)
     # finally every object shows its contents once more (nothing was changed by a read) and so does every twin
+    if [fp(ps), fp(org)] != geo0: problems.append("the pixel scales / origin object given to the constructors was modified")
+    if any(fp(k) != f0 for k, f0 in kerns.values()): problems.append("a kernel-shape object was modified by a call")
     for o, ob in enumerate(objs):
         check_arg(ob)
+        if tuple(float(v) for v in ob.m.pixel_scales) != ps_exp or tuple(float(v) for v in ob.m.origin) != org_exp:
+            problems.append(f"object {o} does not carry the pixel scales / origin of the history ({ob.m.pixel_scales}, {ob.m.origin})")
         steps.append(f"HRead {o}%nat (KContents {cmask(cur(ob))})")
         steps.append(f"HRead {o}%nat (KContents {cmask(mask_out(ob.raw))})")
     _t("hist"); _t(f"hist:objects={len(objs)}"); _t(f"hist:edits={min(nedits, 5)}{'+' if nedits >= 5 else ''}")
